@@ -305,6 +305,8 @@ run_case(long idx, void *ctx)
     }
     free(log);
     tc_cleanup();
+    if (idx % 9 == 0)
+        mc_sample("%s", g_case);
     mc_count("cases_run", 1);
 }
 
